@@ -29,6 +29,7 @@
 -/
 import EasyMl.Model.Transform
 import EasyMl.Model.Iter
+import EasyMl.Model.MatrixResize
 
 namespace EasyMl.Survivor
 open EasyMl
@@ -202,6 +203,46 @@ def matrixAccesses (src : Iter.MSource Nat) (order : MOrder) (n : Nat) : Outcome
   | .row r => line (Iter.LineIter.newRow src.rows src.columns r)
   | .column c => line (Iter.LineIter.newColumn src.rows src.columns c)
   | .diagonal => line (.ok (Iter.LineIter.newDiagonal src.rows src.columns))
+
+/-! ### `insert_row` / `insert_column` with an element type whose `Clone` panics (fix L-13)
+
+  `Matrix::insert_row(row, value)` and `insert_column(column, value)` fill the new line with
+  clones of `value`.  `Clone` is user code: it may panic on its `p`-th call.  After fix L-13 the
+  clones are made first (`vec![value; n]`: `n − 1` calls of `clone`, the value itself is moved
+  into the last slot) and only then inserted, so a panicking `Clone` leaves the matrix untouched. -/
+
+/-- does `vec![value; n]` panic when `Clone::clone` panics on call number `panicAt`? -/
+def cloneFillPanics (n : Nat) (panicAt : Option Nat) : Bool :=
+  match panicAt with
+  | some p => decide (p + 1 < n)
+  | none => false
+
+/-- `insert_row` for an element type whose `Clone` panics on call `panicAt` (repaired code) -/
+def insertRowCloning (m : Matrix α) (row : Nat) (value : α) (panicAt : Option Nat) : Matrix.Res α :=
+  if row ≤ m.rows then
+    if cloneFillPanics m.columns panicAt then ⟨m, some .explicit⟩ else m.insertRow row value
+  else ⟨m, some .explicit⟩
+
+/-- `insert_column`, the same -/
+def insertColumnCloning (m : Matrix α) (column : Nat) (value : α) (panicAt : Option Nat) :
+    Matrix.Res α :=
+  if column ≤ m.columns then
+    if cloneFillPanics m.rows panicAt then ⟨m, some .explicit⟩ else m.insertColumn column value
+  else ⟨m, some .explicit⟩
+
+/-- The unrepaired `insert_row`: `for column in 0..columns { self.data.insert(index, value.clone()) }`
+    then `self.rows += 1` — a `clone` panicking on call `p < columns` leaves the `p` elements
+    inserted so far in the data while `rows` is what it was.  Kept for the defect witness. -/
+def insertRowCloningOld (m : Matrix α) (row : Nat) (value : α) (panicAt : Option Nat) : Matrix.Res α :=
+  if row ≤ m.rows then
+    match panicAt with
+    | some p =>
+      if p < m.columns then
+        match Matrix.insertRowLoop m.columns row value (List.range p) m.data with
+        | (data, _) => ⟨{ m with data := data }, some .explicit⟩
+      else m.insertRow row value
+    | none => m.insertRow row value
+  else ⟨m, some .explicit⟩
 
 /-! ### matrix constructors with a size check -/
 
